@@ -140,7 +140,9 @@ def run_policy(ctx, rng, pid):
                                 fid = "F7"
                             ctx.violation("collection /%s changed although the policy gives %r to %r there" % ("/".join(p), perms, user), case,
                                           finding=fid)
-            # oracle 1: twin store
+            # oracle 1: twin store (an anonymous user gets 401 where a named one gets 403 NOT_ALLOWED)
+            def deny(x, anonymous=not user):
+                return 403 if (x == 401 and anonymous) else x
             m, path, body, env = twin.http(r)
             if r.get("if_match_present"):
                 pass
@@ -151,10 +153,10 @@ def run_policy(ctx, rng, pid):
                 st1, hd1, text1 = sim.app.request(m1, path1, body1, login=(user + ":pw") if user else None, **env1)
                 if (st1, text1) != (st2, text2):
                     ctx.violation("the answer depends on data inside a subtree where the policy gives the user nothing "
-                                  "(status %s vs %s)" % (st1, st2), dict(case, twin_extra=extra), finding="F20" if {st1, st2} == {403, 404} else None)
+                                  "(status %s vs %s)" % (st1, st2), dict(case, twin_extra=extra), finding="F20" if {deny(st1), deny(st2)} == {403, 404} else None)
             elif st != st2:
                 ctx.violation("the outcome of a write depends on data inside a hidden subtree (status %s vs %s)" % (st, st2),
-                              dict(case, twin_extra=extra), finding="F20" if {st, st2} <= {403, 404, 409, 412, 405} and st != st2 else None)
+                              dict(case, twin_extra=extra), finding="F20" if {deny(st), deny(st2)} <= {403, 404, 409, 412, 405} and st != st2 else None)
             if diffs:
                 # anonymous: NOT_ALLOWED is answered 401, FORBIDDEN 403 - the model says 403 for both
                 if not user and len(diffs) == 1 and diffs[0].startswith("status 403 (model 403)"):
